@@ -3,7 +3,7 @@ use typst_syntax::{ast::*, SyntaxKind};
 use super::{
     layout::list::{ListStyle, ListStylist},
     style::FoldStyle,
-    util::{has_comment_children, is_only_one_and},
+    util::{has_comment_children, is_comment_node, is_only_one_and},
     ArenaDoc, Context, Mode, PrettyPrinter,
 };
 
@@ -31,8 +31,9 @@ impl<'a> PrettyPrinter<'a> {
             }
         }
 
+        // A comment may sit inside the body node or next to it, depending on what follows it.
         let can_fold = code_block.body().exprs().count() <= 1
-            && !has_comment_children(code_block.to_untyped());
+            && !nodes.iter().any(|node| is_comment_node(node));
         ListStylist::new(self)
             .disallow_front_comment()
             .with_fold_style(if can_fold {
